@@ -1167,3 +1167,101 @@ theorem sheet_conjunction (acc : π → Str → Option Bool) (reg : Registry π)
     | other => left; rfl
 
 end CssVerif.Validate
+
+/-! ## the duplicate-free evaluation used by the driver computes the same verdict -/
+namespace CssVerif.Validate
+open CssVerif
+
+theorem mem_dedup : ∀ (l : List Nat) (x : Nat), x ∈ dedup l ↔ x ∈ l := by
+  intro l
+  induction l with
+  | nil => intro x; simp [dedup]
+  | cons a r ih =>
+    intro x
+    simp only [dedup]
+    split
+    · rename_i hc
+      simp only [List.contains_iff_mem] at hc
+      rw [ih, List.mem_cons]
+      constructor
+      · exact Or.inr
+      · rintro (rfl | h)
+        · exact (ih x).1 hc
+        · exact h
+    · simp only [List.mem_cons, ih]
+
+theorem mem_starSet {f g : List Nat → List Nat} (h : ∀ s l, l ∈ f s ↔ l ∈ g s) (gr : Bool) :
+    ∀ fuel s l, l ∈ starSet f fuel s ↔ l ∈ Re.starMs g gr fuel s := by
+  intro fuel
+  induction fuel with
+  | zero => intro s l; simp [starSet, Re.starMs]
+  | succ n ih =>
+    intro s l
+    simp only [starSet, Re.starMs, mem_dedup]
+    have key : (l ∈ (((f s).filter (· > 0)).flatMap fun l1 => (starSet f n (s.drop l1)).map (l1 + ·))) ↔
+        (l ∈ (((g s).filter (· > 0)).flatMap fun l1 => (Re.starMs g gr n (s.drop l1)).map (l1 + ·))) := by
+      simp only [List.mem_flatMap, List.mem_filter, List.mem_map, h, ih]
+    cases gr
+    · simp only [Bool.false_eq_true, if_false, List.mem_cons, key]
+    · simp only [if_true, List.mem_cons, List.mem_append, List.not_mem_nil, or_false, key]
+      constructor
+      · rintro (h | h); exact Or.inr h; exact Or.inl h
+      · rintro (h | h); exact Or.inr h; exact Or.inl h
+
+theorem mem_repSet {f g : List Nat → List Nat} (h : ∀ s l, l ∈ f s ↔ l ∈ g s) (gr : Bool) :
+    ∀ n m s l, l ∈ repSet f m n s ↔ l ∈ Re.repMs g gr m n s := by
+  intro n
+  induction n with
+  | zero => intro m s l; simp [repSet, Re.repMs]
+  | succ n ih =>
+    intro m s l
+    simp only [repSet, Re.repMs, mem_dedup]
+    have key : (l ∈ ((f s).flatMap fun l1 => (repSet f (m - 1) n (s.drop l1)).map (l1 + ·))) ↔
+        (l ∈ ((g s).flatMap fun l1 => (Re.repMs g gr (m - 1) n (s.drop l1)).map (l1 + ·))) := by
+      simp only [List.mem_flatMap, List.mem_map, h, ih]
+    by_cases hm : m = 0
+    · simp only [hm, if_true]
+      cases gr
+      · simp only [Bool.false_eq_true, if_false, List.mem_cons]
+        rw [show (0 : Nat) - 1 = 0 from rfl] at *
+        subst hm; rw [key]
+      · simp only [if_true, List.mem_cons, List.mem_append, List.not_mem_nil, or_false]
+        subst hm; rw [key]
+        constructor
+        · rintro (h | h); exact Or.inr h; exact Or.inl h
+        · rintro (h | h); exact Or.inr h; exact Or.inl h
+    · simp only [hm, if_false]; exact key
+
+/-- the set evaluation has exactly the members of the list-of-successes semantics -/
+theorem mem_msSet : ∀ (r : Re) (s : Str) (l : Nat), l ∈ msSet r s ↔ l ∈ r.ms s := by
+  intro r
+  induction r with
+  | eps => intro s l; simp [msSet, Re.ms]
+  | cls neg rs => intro s l; cases s <;> simp [msSet, Re.ms]
+  | seq a b iha ihb =>
+    intro s l
+    simp only [msSet, Re.ms, mem_dedup, List.mem_flatMap, List.mem_map, iha, ihb]
+  | alt a b iha ihb =>
+    intro s l
+    simp only [msSet, Re.ms, mem_dedup, List.mem_append, iha, ihb]
+  | star a g iha => intro s l; exact mem_starSet iha g _ s l
+  | rep a m n g iha => intro s l; exact mem_repSet iha g n m s l
+  | eol => intro s l; simp [msSet, Re.ms]
+
+theorem acceptsFast_eq (r : Re) (s : Str) : acceptsFast r s = accepts r s := by
+  unfold acceptsFast accepts
+  cases h1 : msSet r s with
+  | nil =>
+    cases h2 : r.ms s with
+    | nil => rfl
+    | cons x xs =>
+      have : x ∈ msSet r s := (mem_msSet r s x).2 (by rw [h2]; simp)
+      rw [h1] at this; simp at this
+  | cons y ys =>
+    cases h2 : r.ms s with
+    | nil =>
+      have : y ∈ r.ms s := (mem_msSet r s y).1 (by rw [h1]; simp)
+      rw [h2] at this; simp at this
+    | cons x xs => rfl
+
+end CssVerif.Validate
